@@ -12,9 +12,10 @@ def sizes(lo, hi1, hi2=None):
     return [(a, b) for a in range(lo, hi1 + 1) for b in range(lo, hi2 + 1)]
 
 
-def kernel(name, contract, strength, finder=(), **kw):
+def kernel(name, contract, strength, finder=(), shards=None, **kw):
     g = KernelGroup(name, contract, strength, **kw)
     g.finder_sizes = list(finder)
+    g.shards = dict(shards or {})
     return register(g)
 
 
@@ -41,10 +42,12 @@ def sizes_ri(lo, hi1, hi2=None):
     return [(a, b, ri) for (a, b) in sizes(lo, hi1, hi2) for ri in (False, True)]
 
 
-kernel('spike_py.B', SpikeProfile(), 'B', sizes_quick=sizes_ri(1, 2), sizes_thorough=sizes_ri(1, 3),
-       bound_text='N1,N2 <= 2 (quick) / <= 3 (thorough), RI in {False,True}; all real spike times, MRTS >= 0')
-kernel('spike_pyx.B', SpikeProfile(PROF, 'spike_profile_cython', names=('t1', 't2')), 'B', sizes_quick=sizes_ri(1, 2),
-       sizes_thorough=sizes_ri(1, 3), bound_text='N1,N2 <= 2 (quick) / <= 3 (thorough), RI in {False,True}')
+_SPQ = sizes_ri(1, 2) + [(2, 3, False), (2, 3, True), (3, 2, False), (3, 2, True)]
+_SPS = {(2, 3, False): 2, (2, 3, True): 2, (3, 2, False): 2, (3, 2, True): 2, (3, 3, False): 6, (3, 3, True): 6}
+kernel('spike_py.B', SpikeProfile(), 'B', sizes_quick=_SPQ, sizes_thorough=sizes_ri(1, 3), shards=_SPS,
+       bound_text='N1+N2 <= 5 (quick) / N1,N2 <= 3 (thorough), RI in {False,True}; all real spike times, MRTS >= 0')
+kernel('spike_pyx.B', SpikeProfile(PROF, 'spike_profile_cython', names=('t1', 't2')), 'B', sizes_quick=_SPQ,
+       sizes_thorough=sizes_ri(1, 3), shards=_SPS, bound_text='N1+N2 <= 5 (quick) / N1,N2 <= 3 (thorough), RI in {False,True}')
 
 # ---- C03 / C04 / C16: coincidence window, SPIKE-Sync, order, directionality kernels
 from ..contracts.sync import GetTau, DiscreteProfile, CoincidenceSingle, DirectionalityProfile, SinglePass  # noqa
@@ -56,7 +59,7 @@ _tau_finder = [(a, b, i, j) for a in range(0, 3) for b in range(0, 3) for i in r
 kernel('get_tau_py.P', GetTau(), 'P', finder=_tau_finder)
 kernel('get_tau_pyx.P', GetTau(TAU), 'P', finder=_tau_finder)
 
-_BT = 'N1,N2 <= 2 (quick) / <= 3 (thorough), empty trains included; all real spike times, max_tau >= 0, MRTS >= 0'
+_BT = 'N1+N2 <= 5 (quick; per-spike indicator and single-pass routines N1,N2 <= 3) / N1,N2 <= 3 (thorough), empty trains included; all real spike times, max_tau >= 0, MRTS >= 0'
 for _nm, _c in (
         ('sync_py', DiscreteProfile()),
         ('sync_pyx', DiscreteProfile(PROF, 'coincidence_profile_cython')),
@@ -69,7 +72,9 @@ for _nm, _c in (
         ('syncval_pyx', SinglePass(DIST, 'coincidence_value_cython', 'sync')),
         ('orderval_pyx', SinglePass(DIRPYX, 'spike_train_order_cython', 'order')),
         ('dirval_pyx', SinglePass(DIRPYX, 'spike_directionality_cython', 'directionality'))):
-    kernel(_nm + '.B', _c, 'B', sizes_quick=sizes(0, 2), sizes_thorough=sizes(0, 3), bound_text=_BT)
+    _heavy = _nm.startswith(('sync', 'order', 'dir_'))
+    kernel(_nm + '.B', _c, 'B', sizes_quick=sizes(0, 2) + [(2, 3), (3, 2)] + ([] if _heavy else [(3, 3)]), sizes_thorough=sizes(0, 3), bound_text=_BT,
+           shards=({(2, 3): 2, (3, 2): 2, (3, 3): 12} if _heavy else {(3, 3): 2}))
 
 # ---- C09 / C11: add kernels
 from ..contracts.add import AddPwc, AddDiscrete, AddPwl  # noqa
@@ -116,7 +121,8 @@ _WR = [('pyspike/generic.py', f) for f in ('resolve_keywords', '_generic_profile
       [('pyspike/spike_sync.py', f) for f in ('spike_sync_profile', 'spike_sync_profile_bi', 'spike_sync_profile_multi', '_spike_sync_values', 'spike_sync', 'spike_sync_bi', 'spike_sync_multi', 'spike_sync_matrix')] + \
       [('pyspike/spike_directionality.py', f) for f in ('spike_directionality_values', '_spike_directionality_values_impl', 'spike_directionality', 'spike_directionality_matrix', 'spike_train_order_profile', 'spike_train_order_profile_bi', 'spike_train_order_profile_multi', '_spike_train_order_impl', 'spike_train_order', 'spike_train_order_bi', 'spike_train_order_multi')]
 _BN = 'N <= %d trains (quick) / <= %d (thorough); every ordered index subset of size >= 2; unbounded in the train contents (kernels, classes abstract)'
-register(NativeGroup('plumb.forms', dict(quick=[('forms', 3)], thorough=[('forms', 3), ('forms', 4)]), _BN % (3, 4), _WR))
+register(NativeGroup('plumb.forms', dict(quick=[('forms', 3), ('forms_wide', 5), ('forms_wide', 6)], thorough=[('forms', 3), ('forms', 4), ('forms', 5), ('forms_wide', 6), ('forms_wide', 7)]),
+                     _BN % (3, 5) + '; additionally N = 5, 6 (quick) / 6, 7 (thorough) trains with five selections each (whole list, reversed, rotated, all but one, a triple)', _WR))
 register(NativeGroup('plumb.degenerate', dict(quick=[('degenerate', 2), ('degenerate', 3)], thorough=[('degenerate', 2), ('degenerate', 3), ('degenerate', 4)]),
                      _BN % (3, 4) + '; every pattern of empty / non-empty trains', _WR))
 register(NativeGroup('plumb.reconcile', dict(quick=[('reconcile', 2), ('reconcile', 3)], thorough=[('reconcile', 2), ('reconcile', 3), ('reconcile', 4)]), _BN % (3, 4), _WR))
@@ -153,3 +159,5 @@ _SM_Q = [(k, mp) for k in (1, 2) for m in (3, 4) for mp in _it.product((1, 2), r
 _SM_T = [(k, mp) for k in (1, 2, 3) for m in (3, 4, 5) for mp in _it.product((1, 2, 3), repeat=m)]
 kernel('disc_smooth.B', F.DiscSmooth(), 'B', sizes_quick=_SM_Q, sizes_thorough=_SM_T,
        bound_text='<= 4 entries, multiplicities in {1,2}, window k <= 2 (quick); <= 5 entries, multiplicities in {1,2,3}, k <= 3 (thorough); values symbolic')
+kernel('psth.B', MI.Psth(), 'B', sizes_quick=[(1, 1, 1), (2, 2, 1), (3, 2, 1), (2, 0, 2)], sizes_thorough=[(1, 1, 1), (2, 2, 1), (3, 2, 1), (2, 0, 2), (3, 2, 2), (4, 2, 1), (2, 1, 1, 1)],
+       bound_text='<= 3 bins, <= 2 trains with <= 2 spikes (quick); <= 4 bins / 3 trains (thorough); np.linspace / np.histogram as assumed contracts')
